@@ -271,6 +271,14 @@ func (c *c12) reversal(a, b *asCfg, aIf, bIf uint16, completed []byte, op string
 		return // reported by predicate
 	}
 	oh := s.Path.(*onehop.Path)
+	// only paths that A really issued and that are still unexpired must be accepted on the way back
+	orig := oh.Info.SegID ^ binary.BigEndian.Uint16(oh.FirstHop.Mac[:2])
+	wantA := hopMacFull(a.key, orig, oh.Info.Timestamp, oh.FirstHop.ExpTime, oh.FirstHop.ConsIngress, oh.FirstHop.ConsEgress)
+	expiry := int64(oh.Info.Timestamp) + (int64(oh.FirstHop.ExpTime)+1)*86400/256
+	if !bytes.Equal(wantA[:6], oh.FirstHop.Mac[:]) || oh.FirstHop.ConsEgress != aIf || expiry < int64(nowSec())+5 ||
+		oh.FirstHop.IngressRouterAlert || oh.FirstHop.EgressRouterAlert { // alerts divert to the traceroute slow path
+		return
+	}
 	rp, err := oh.Reverse()
 	if err != nil {
 		bad("reverse", "completed one-hop path cannot be reversed: "+err.Error(), nil)
